@@ -4,6 +4,7 @@ import DdsProofs.Memo
 import DdsProofs.History
 import DdsProofs.MemoExample
 import DdsProofs.Scope
+import DdsProofs.Order
 /-!
 # C01 — memoised evaluation returns exactly what plain execution would return
 
@@ -145,5 +146,19 @@ theorem brute_force_locals_miss_module_names :
     ("X" ∈ Scope.pyGlobalReads [] Scope.shadowComp ∧ "X" ∉ Scope.oldNames [] Scope.shadowComp) ∧
     ("Z" ∈ Scope.pyGlobalReads [] Scope.shadowNested ∧ "Z" ∉ Scope.oldNames [] Scope.shadowNested) :=
   ⟨Scope.old_misses_comprehension, Scope.old_misses_nested⟩
+
+/-! ## The order in which the calls of an expression are analysed (outside the pipeline model: calls nested in arguments) -/
+
+/-- the context of a call is made of the calls analysed before it: the code analyses the calls of an expression in the order in
+which Python makes them (the arguments before the call), when the called functions are given by name - the only form the analysis
+understands -/
+theorem calls_analysed_in_evaluation_order (e : Order.CE) (h : Order.funcSimple e = true) :
+    Order.ddsOrder e = Order.pyOrder e :=
+  Order.dds_order_eq e h
+
+/-- before the `fix:` commit the call came before its arguments: in `g(h())` the call of `h` was not in the context of `g` -/
+theorem call_before_arguments_was_wrong :
+    Order.pyOrder Order.nested = [1, 0] ∧ Order.oldOrder Order.nested = [0, 1] ∧ Order.ddsOrder Order.nested = [1, 0] :=
+  Order.old_order_differs
 
 end Dds.C01
